@@ -1,14 +1,20 @@
 /-
-  C24 — Line-to-address debug mapping is one-to-one.   (partial)
+  C24 — Line-to-address debug mapping is one-to-one.   (line → address proved for whole programs; inverse given distinctness)
   Proved for every line map whose blocks are disjoint and non-empty (what `from_blocks` accepts): the line of the i-th
   entry of a block maps to that entry's address (`get` inverts the enumeration `iter`), lines outside every block map
   to nothing; when all recorded addresses are distinct, the address maps back to the line (`find_of_mem`: `find` inverts `get`).
   In pass 1 a line is recorded only for a statement inside a block that is not `.orig`, `.end` or `.external` (fix F6),
   and it is recorded as the location counter before the statement, i.e. the address of its first word.
-  Not proved: that the addresses recorded for a whole well-formed program are distinct (needs the C02 location-counter
-  monotonicity across the program); checked by the oracle (injectivity of the dumped map) on generated programs.
+  Whole programs (`line_maps_to_statement_address`, Lemmas/LineVec.lean + LineRec.lean): after pass 1 with debug symbols,
+  `lookup_line` of the line a statement starts on is the location counter at that statement (the address of its first word)
+  when the statement is inside a block and not `.orig`/`.end`/`.external`, and nothing otherwise; lines on which no statement
+  starts map to nothing.  This goes through the run-length condensation (`LineSymbolMap::new` answers exactly the per-line
+  vector) and an invariant of the vector over the pass-1 fold (runs ascend, nothing recorded beyond the current line).
+  Not proved: that the addresses recorded for a whole program are pairwise distinct (needed for `rev_lookup_line` = inverse:
+  `find_of_mem` proves the inverse *given* distinctness); checked by the oracle (injectivity of the dumped map).
 -/
 import Lc3V.Model.Asm
+import Lc3V.Lemmas.LineRec
 set_option linter.unusedSimpArgs false
 namespace Lc3V.C24
 open Lc3V
@@ -177,7 +183,48 @@ example : noLine (.directive (.orig 0x3000)) = true ∧ noLine (.directive .end_
     noLine (.directive (.external ⟨['X'], 0⟩)) = true ∧ noLine (.instr .halt) = false ∧ noLine (.directive (.blkw 3)) = false :=
   ⟨rfl, rfl, rfl, rfl, rfl⟩
 
+/-! ### whole programs -/
+
+/-- **line → address for a whole program** (debug symbols on; statements on strictly increasing lines, as the parser produces
+    them).  For the statement `s` of an assembled program: if `s` lies inside a block and is not `.orig`, `.end` or
+    `.external`, the line it starts on maps to the location counter pass 1 had on reaching `s` — the address of its first
+    word (C01: both passes keep the same counter = block start + words before); otherwise that line maps to nothing.  A line
+    on which no statement starts (blank, comment, label-only continuation) maps to nothing. -/
+theorem line_maps_to_statement_address (pre post : List Stmt) (s : Stmt) (src : List Char) (t : SymTab) (st_pre : P1)
+    (h : pass1 (pre ++ s :: post) (some src) = .ok t)
+    (hl : LinesFrom (SourceInfo.ofText src) (SourceInfo.ofText src).countLines 0 (pre ++ s :: post))
+    (hpre : pre.foldlM pass1Step (p1Init (some src)) = .ok st_pre) :
+    t.lookupLine ((SourceInfo.ofText src).getLine s.span.1) =
+      (match st_pre.cursor with
+       | some cur => if noLine s.nucleus then none else some cur.lc
+       | none => none) ∧
+    ∀ k, (∀ x ∈ pre ++ s :: post, (SourceInfo.ofText src).getLine x.span.1 ≠ k) → t.lookupLine k = none := by
+  obtain ⟨h1, h2⟩ := lookup_line_spec pre post s src t st_pre h hl hpre
+  refine ⟨?_, h2⟩
+  rw [h1]
+  unfold lineEvent
+  cases st_pre.cursor with
+  | none => rfl
+  | some cur => cases noLine s.nucleus <;> rfl
+
+/-- lines holding `.orig`, `.end` or `.external` map to nothing -/
+theorem marker_lines_map_to_nothing (pre post : List Stmt) (s : Stmt) (src : List Char) (t : SymTab) (st_pre : P1)
+    (h : pass1 (pre ++ s :: post) (some src) = .ok t)
+    (hl : LinesFrom (SourceInfo.ofText src) (SourceInfo.ofText src).countLines 0 (pre ++ s :: post))
+    (hpre : pre.foldlM pass1Step (p1Init (some src)) = .ok st_pre) (hm : noLine s.nucleus = true) :
+    t.lookupLine ((SourceInfo.ofText src).getLine s.span.1) = none := by
+  rw [(line_maps_to_statement_address pre post s src t st_pre h hl hpre).1]
+  cases st_pre.cursor with
+  | none => rfl
+  | some cur => simp [hm]
+
+/-- `LineSymbolMap::new` answers exactly the per-line vector (Lemmas/LineVec.lean) -/
+theorem new_answers_the_vector (ls : List (Option W)) (he : EndsNone ls) (hasc : Asc ls = true) :
+    ∃ m, LineMap.new ls = some m ∧ ∀ l, m.get l = (ls[l]?).join := by
+  obtain ⟨m, h1, h2, _, _⟩ := lineMap_new_spec ls he hasc
+  exact ⟨m, h1, h2⟩
+
 def obligations : List Lean.Name :=
-  [``keys_ge, ``lastLE_of_mem, ``get_of_mem, ``get_of_iter, ``find_of_mem, ``no_line_for_markers, ``line_recorded, ``no_line_outside_block]
+  [``line_maps_to_statement_address, ``marker_lines_map_to_nothing, ``new_answers_the_vector, ``keys_ge, ``lastLE_of_mem, ``get_of_mem, ``get_of_iter, ``find_of_mem, ``no_line_for_markers, ``line_recorded, ``no_line_outside_block]
 
 end Lc3V.C24
